@@ -34,6 +34,8 @@ DIRECTIVES = [
     '#define VF_S "str ! not a comment"', "#define VF_Q 'a'", "#else  ! fortran comment", "#endif // c++",
     "#define VF_END end", "#define VF_AMP x = &", '#include "sub/dir/Mixed.Case.H"', "#undef  VF_Y", "#ifdef vf_lower",
     "#define vf_lower(x) x", "    #endif", "#error", "#define VF_SEMI a; b",
+    "#define VF_CAT 'hello, ' // 'world'", "#warning see http://example.org/x", "#if VF_X // 2 > 1", '#line 5 "a//b.F90"',
+    "#error a /* c */ b", "#define VF_C /* c comment */ 1", "#elif VF_Z // 3 == 1", "#define VF_BANG a ! b", "#warning it's // here",
 ]
 
 
